@@ -235,11 +235,27 @@ class Body:
                 pass
         self._defs = d
         self._partial = partial
+        # user variables that are mutably borrowed: their content changes after the definition
+        mb = set()
+        for bi, b in enumerate(self.blocks):
+            if bi in self.cleanup:
+                continue
+            for s in b["s"]:
+                if s["k"] == "as" and s["rv"]["r"] == "ref" and s["rv"].get("mut"):
+                    p = s["rv"]["p"]
+                    if "*" not in p.get("p", ()):
+                        mb.add(p["l"])
+        self._mut_borrowed = mb
         return d
 
     def var_def_terms(self, l):
         """terms of every whole-local definition of local l"""
         return [self._term_def(d, 0, (l,)) for d in self.defs().get(l, [])]
+
+    @staticmethod
+    def _is_buffer_ty(ty):
+        return ty.startswith("std::vec::Vec<") or ty.startswith("bytes::BytesMut") or ty.startswith("[") \
+            or ty.startswith("std::string::String") or ty.startswith("std::collections::")
 
     def local_name(self, l):
         loc = self.locals[l]
@@ -270,6 +286,8 @@ class Body:
             if len(defs) != 1 or self.locals[l].get("u"):
                 return ("var", self.local_name(l), l)
         if len(defs) == 1:
+            if self.locals[l].get("u") and l in self._mut_borrowed and self._is_buffer_ty(self.locals[l]["ty"]):
+                return ("var", self.local_name(l), l)
             return self._term_def(defs[0], depth, seen)
         if len(defs) == 0:
             return ("var", self.local_name(l), l)
